@@ -990,11 +990,20 @@ class C15(NlpCheck):
         name = "unsupported-rejected"
         n = 8 if self.tier == 'quick' else 60
         for _ in range(n):
-            kind = self.rng.choice(['euler', 'dc_degree', 'eq', 'division'])
+            kind = self.rng.choice(['euler', 'dc_degree', 'eq', 'division', 'time', 'time'])
             if kind == 'euler':
                 desc = gen_inf_case(self.rng, plain=True, extra={'methods': [('ms', 'euler'), ('ss', 'euler')]})
             elif kind == 'dc_degree':
                 desc = gen_inf_case(self.rng, plain=True, extra={'methods': [('dc', 'rk')], 'degrees': [1, 2, 3, 5]})
+            elif kind == 'time':
+                # a symbol that varies INSIDE a control interval and is not a state (time itself): freezing it at the interval start
+                # would not bound the constraint between grid points, so it must be rejected like any other unsupported operand
+                desc = gen_inf_case(self.rng, plain=True)
+                c = desc['cons'][0]
+                if self.rng.random() < 0.5:
+                    c['a'] = [('+', c['a'][0], ('*', E.C(G.coef(self.rng)), ('t',)))]
+                else:
+                    c['a'] = [('+', c['a'][0], ('*', ('*', E.C(G.coef(self.rng)), ('t',)), ('x', 0)))]
             elif kind == 'eq':
                 desc = gen_inf_case(self.rng, plain=True)
                 desc['cons'][0]['rel'] = 'eq'
@@ -1007,7 +1016,7 @@ class C15(NlpCheck):
             self.count("unsupported:" + kind)
             raised = False
             try:
-                if kind in ('eq', 'division'):
+                if kind in ('eq', 'division', 'time'):
                     b = B.build(desc)
                     bad = None
                 else:
@@ -1018,10 +1027,10 @@ class C15(NlpCheck):
             # model must reject as well (euler / dc degree: wrong coefficient count is a rejection of the matrix product)
             if raised:
                 continue
-            if kind in ('eq', 'division'):
+            if kind in ('eq', 'division', 'time'):
                 self.slice_ok[name] = False
                 self.violation("a grid='inf' constraint with %s was accepted: no sufficient condition can be produced for it and it was not rejected"
-                               % ("an equality" if kind == 'eq' else "a division"), {"desc": desc}, {"kind": "inf-accepted", "what": kind})
+                               % ({"eq": "an equality", "division": "a division", "time": "an explicit dependence on ocp.t"}[kind]), {"desc": desc}, {"kind": "inf-accepted", "what": kind})
                 return
             if bad:
                 self.slice_ok[name] = False
@@ -1531,7 +1540,7 @@ def compare_multi(md, mb, driver, rng, R=2):
 @register
 class C12(Check):
     pid = "C12"
-    slices = ["tree-nlp-vs-model", "template-unchanged", "solution-readback", "tree-histories"]
+    slices = ["tree-nlp-vs-model", "template-unchanged", "solution-readback", "tree-histories", "one-method-object-for-several-stages"]
     uses_generated = True
 
     def explanation(self):
@@ -1552,10 +1561,59 @@ class C12(Check):
         bad = [k for k, (kind, sub) in tab.items() if not extract.clone_requirement_ok(k, kind, sub)]
         return len(tab), len(tab) - len(bad), ["clone table violations: %s" % bad] if bad else []
 
+    def shared_method_slice(self):
+        """each stage transcribes on its own method: ONE method object handed to several stages (ocp.method is documented not to modify its
+        argument) gives the same NLP as separate, equal method objects"""
+        import casadi as ca
+        rockit = B.import_rockit()
+        name = "one-method-object-for-several-stages"
+        n = 3 if self.tier == 'quick' else 24
+        rng = self.rng
+        for it in range(n):
+            kind = ['ms', 'dc', 'ss'][it % 3]
+            N, M = rng.randint(2, 3), rng.randint(1, 2)
+            nst = rng.choice([2, 2, 3])
+            objk = ['sum', 'integral'][it % 2]
+
+            def build(shared):
+                def mk():
+                    return {'ms': rockit.MultipleShooting(N=N, M=M, intg='rk'), 'ss': rockit.SingleShooting(N=N, M=M, intg='rk'),
+                            'dc': rockit.DirectCollocation(N=N, M=M, degree=2)}[kind]
+                with B.quiet():
+                    ocp = rockit.Ocp()
+                    one = mk()
+                    stages = []
+                    for si in range(nst):
+                        st = ocp.stage(t0=float(si), T=1.0 + 0.5 * si)
+                        x = st.state(); u = st.control()
+                        st.set_der(x, -(1 + si) * x + u)
+                        st.add_objective(st.sum(u ** 2 + x ** 2) + st.at_tf(x) ** 2 if objk == 'sum' else st.integral(u ** 2 + (si + 1) * x ** 2))
+                        st.subject_to(-2 <= (u <= 2))
+                        if si == 0:
+                            st.subject_to(st.at_t0(x) == 1)
+                        st.method(one if shared else mk())
+                        stages.append((st, x))
+                    for (a, xa), (b_, xb) in zip(stages, stages[1:]):
+                        ocp.subject_to(a.at_tf(xa) == b_.at_t0(xb))
+                    ocp.solver('ipopt', {'ipopt.print_level': 0, 'print_time': False, 'ipopt.max_iter': 0, 'ipopt.sb': 'yes'})
+                return ocp
+            try:
+                msg = nlp_compare_ocps(build(True), build(False), rng, "%d stages given ONE %s method object vs separate equal method objects" % (nst, kind))
+            except Exception as ex:
+                msg = "%d stages given ONE %s method object: %s: %s" % (nst, kind, type(ex).__name__, str(ex)[:250].replace("\n", " "))
+            self.evaluations += 1
+            self.signatures.add("shared-method-%d" % it)
+            self.count("shared-method-object:" + kind)
+            if msg:
+                self.slice_ok[name] = False
+                self.violation(msg, {"kind": kind, "N": N, "M": M, "stages": nst, "objective": objk}, {"kind": "shared-method-object"})
+                return
+
     def correspondence(self):
         self.tree_slice()
         self.readback_slice()
         self.history_slice()
+        self.shared_method_slice()
 
     def history_slice(self):
         tree_history_slice(self, "tree-histories")
